@@ -6,6 +6,7 @@ import (
 	"math/big"
 	"strings"
 
+	"verifharness/internal/asm"
 	"verifharness/internal/impl"
 	"verifharness/internal/items"
 	"verifharness/internal/progen"
@@ -25,6 +26,7 @@ type msStep struct {
 	stack  []*big.Int // top first, at most 7
 	before uint64
 	after  uint64
+	cost   uint64
 }
 
 type msTracer struct {
@@ -71,7 +73,7 @@ func (t *msTracer) CaptureState(pc uint64, op vm.OpCode, gas, cost uint64, scope
 		for i := 0; i < 7 && i < len(st); i++ {
 			top = append(top, st[len(st)-1-i].ToBig())
 		}
-		t.pending[f] = &msStep{op: byte(op), stack: top, before: cur}
+		t.pending[f] = &msStep{op: byte(op), stack: top, before: cur, cost: cost}
 	}
 	t.lens[f] = cur
 }
@@ -84,6 +86,7 @@ type msCase struct {
 	Op     string   `json:"op"`
 	Before uint64   `json:"memory_before"`
 	After  uint64   `json:"memory_after"`
+	Cost   uint64   `json:"cost"`
 	Oracle []string `json:"oracle_fail,omitempty"`
 }
 
@@ -115,6 +118,12 @@ func cmdMemSize(args []string) error {
 			w.Balance[a] = big.NewInt(1000)
 		}
 		w.Balance[exCaller] = big.NewInt(1_000_000)
+		if i%2 == 1 {
+			// a memory walk: one frame, a sequence of the instructions whose price is the memory fee plus a per-word amount,
+			// at offsets that mostly grow in uneven strides past the 22 words below which the quadratic term is zero
+			w.Code[u.Contracts[0]] = memWalk(rr, fork == "Cancun")
+			stats["walk-programs"]++
+		}
 		sample := rr.Fork()
 		tr := &msTracer{keep: func(op byte) bool {
 			if op == 0x5e && fork != "Cancun" {
@@ -133,16 +142,27 @@ func cmdMemSize(args []string) error {
 			env.EVM.Call(context.Background(), vm.AccountRef(exCaller), to, rr.Bytes(rr.Intn(40)), 2_000_000, big.NewInt(0))
 		})
 		for _, s := range tr.steps {
-			cs := msCase{Idx: len(cases), Fork: fork, Op: fmt.Sprintf("%02x", s.op), Before: s.before, After: s.after}
+			cs := msCase{Idx: len(cases), Fork: fork, Op: fmt.Sprintf("%02x", s.op), Before: s.before, After: s.after, Cost: s.cost}
 			// in the property's words (C20/C01): memory never shrinks and is a whole number of words
 			if s.after < s.before || s.after%32 != 0 {
 				cs.Oracle = append(cs.Oracle, fmt.Sprintf("C01: memory length %d -> %d at opcode %02x", s.before, s.after, s.op))
+			}
+			// C20 in the property's words: the retained allocation is bounded by a fixed multiple of the gas charged
+			// (3 gas per 32-byte word at least); C02: an instruction that only pays for memory pays the yellow-paper difference
+			if hasMemFn(s.op) && s.after > s.before && 3*(s.after-s.before) > 32*s.cost {
+				cs.Oracle = append(cs.Oracle, fmt.Sprintf("C20: opcode %02x grew the memory by %d bytes for %d gas", s.op, s.after-s.before, s.cost))
+			}
+			if s.op >= 0x51 && s.op <= 0x53 {
+				fee := func(n uint64) uint64 { w := n / 32; return 3*w + w*w/512 }
+				if s.cost != 3+fee(s.after)-fee(s.before) {
+					cs.Oracle = append(cs.Oracle, fmt.Sprintf("C02: opcode %02x charged %d with the memory going %d -> %d bytes, the reference charges %d", s.op, s.cost, s.before, s.after, 3+fee(s.after)-fee(s.before)))
+				}
 			}
 			l := items.New("MS").N(uint64(s.op)).Open()
 			for _, x := range s.stack {
 				l.Big(x)
 			}
-			l.Close().N(s.before).N(s.after)
+			l.Close().N(s.before).N(s.after).N(s.cost)
 			lines = append(lines, l.String())
 			cases = append(cases, cs)
 			if hasMemFn(s.op) {
@@ -152,6 +172,12 @@ func cmdMemSize(args []string) error {
 			}
 			if s.after > s.before {
 				stats["expanded"]++
+				if s.before > 0 {
+					stats["expanded-non-empty"]++
+				}
+				if s.after >= 736 {
+					stats["expanded-to-23-words-or-more"]++ // from here the quadratic term of the fee is not zero
+				}
 			}
 		}
 	}
@@ -162,4 +188,59 @@ func cmdMemSize(args []string) error {
 		return err
 	}
 	return writeJSON(c.out, "stats.json", stats)
+}
+
+func memWalk(r *rng.R, cancun bool) []byte {
+	b := asm.New()
+	pos := uint64(0)
+	n := 4 + r.Intn(14)
+	for k := 0; k < n; k++ {
+		switch r.Intn(6) {
+		case 0:
+			pos += uint64(r.Intn(40))
+		case 1:
+			pos += uint64(r.Intn(700))
+		case 2:
+			pos += uint64(r.Intn(9000))
+		case 3:
+			pos = uint64(r.Intn(int(pos) + 1)) // back inside what exists
+		case 4:
+			pos += 32 * uint64(r.Intn(30))
+		case 5:
+			pos += 1
+		}
+		ln := uint64(r.Intn(100))
+		if r.Intn(4) == 0 {
+			ln = 0
+		}
+		switch r.Intn(9) {
+		case 0:
+			b.Push(pos).Op(asm.MLOAD, 0x50)
+		case 1:
+			b.Push(uint64(k)).Push(pos).Op(asm.MSTORE)
+		case 2:
+			b.Push(uint64(k)).Push(pos).Op(asm.MSTORE8)
+		case 3:
+			b.Push(ln).Push(pos).Op(0x20, 0x50) // KECCAK256 POP
+		case 4:
+			b.Push(ln).Push(uint64(r.Intn(50))).Push(pos).Op(0x37) // CALLDATACOPY
+		case 5:
+			b.Push(ln).Push(uint64(r.Intn(50))).Push(pos).Op(0x39) // CODECOPY
+		case 6:
+			if cancun {
+				b.Push(ln).Push(uint64(r.Intn(int(pos) + 64))).Push(pos).Op(0x5e) // MCOPY
+			} else {
+				b.Push(pos).Op(asm.MLOAD, 0x50)
+			}
+		case 7:
+			t := r.Intn(3)
+			for j := 0; j < t; j++ {
+				b.Push(uint64(j))
+			}
+			b.Push(ln).Push(pos).Op(0xa0 + byte(t)) // LOGt
+		case 8:
+			b.Push(0).Push(pos).Op(0x3e) // RETURNDATACOPY of nothing: never expands, whatever the offset
+		}
+	}
+	return b.Op(0x00).Bytes()
 }
